@@ -10,7 +10,7 @@ from __future__ import annotations
 import itertools
 
 from .. import histories
-from ..harness import VERSIONS
+from ..harness import FAULT_CLASSES, VERSIONS
 from ..lscheck import replay_case, run_cases
 from ..reach import Reach
 
@@ -54,7 +54,7 @@ def cases(ctx):
                     continue
                 for fail19 in fault_sets:
                     count += 1
-                    yield {"version": version, "fail19": list(fail19),
+                    yield {"version": version, "fail19": list(fail19), "fault_class": FAULT_CLASSES[count % len(FAULT_CLASSES)],
                            "steps": PRE + [["rx", line + "\n"] for line in combo]}
     ctx.exhaustive[f"histories-len<={max_len}-x-fault-subsets"] = count
     for i in range(ctx.pick(2000, 60000) // ctx.shard_count):
@@ -67,7 +67,8 @@ def cases(ctx):
                 line = line.replace(f"{U1};", f"{rng.choice([U1, U2, 9])};", 1)
             lines.append(line)
         fail19 = sorted(rng.sample(range(8), rng.choice([0, 1, 2, 3]))) if version.startswith("2") else []
-        yield {"version": version, "fail19": fail19, "steps": PRE + [["rx", line + "\n"] for line in lines]}
+        yield {"version": version, "fail19": fail19, "fault_class": rng.choice(FAULT_CLASSES),
+               "steps": PRE + [["rx", line + "\n"] for line in lines]}
     # scale: many nodes with open episodes at once (requests for different nodes are independent)
     for version in VERSIONS:
         for n in (5, 17, 40, ctx.pick(120, 250)):
